@@ -4,6 +4,27 @@ import json, subprocess
 ALL = ["C%02d" % i for i in range(1, 21)]
 # id -> (engine, technique, level text, level note, design ref)
 BUILT = {
+ "C02": ("client", "stateful property-based testing under a wake-only owned scheduler; invariant over quiescent states (lost-wake-up enabler rules)",
+         "Generated schedules/faults/time advances; a task is polled only if its waker fired, so a Pending without a registered wake-up leaves a call pending at quiescence. Liveness in bounded form.",
+         "Quiescence = no woken task after a turn of tokio's time driver; scripted transport wakes exactly on state change.", "DESIGN.md §5 C02"),
+ "C03": ("client", "stateful property-based testing with hook-driven interleavings inside the guard's drop; per-id wire automaton + end-state obligation",
+         "Abandonment at every stage of a call against every dispatch state, including scheduler steps at the three H1 yield points inside the synchronous drop.",
+         "Interleavings inside drop limited to the H1 yield points.", "DESIGN.md §5 C03"),
+ "C05": ("client", "property-based testing under virtual time (std Instant + tokio timer wheel in lock-step); metamorphic bounds on expiry time",
+         "Deadlines from expired to ~2.1 years, clock steps landing on deadline-1ms/deadline/+1ms; exact 'never early', 2 ms 'must have expired'.",
+         "Virtual clock via clock_gettime interposition; spans beyond 2^36 ms excluded (finding F3).", "DESIGN.md §5 C05"),
+ "C09": ("client", "fault-injection property-based testing (fail the k-th call of each transport operation) with an outcome-classification oracle",
+         "Every transport operation can fail at a generated index with calls in generated stages; oracle checks the reported activity, containment and absence of hangs/panics.",
+         "Faults are injected by the scripted transport only (not the OS).", "DESIGN.md §5 C09"),
+ "C10": ("client", "stateful property-based testing of shutdown histories; ordering invariant over the transport operation log",
+         "Handle drop / peer close at generated points with queued, in-flight, abandoned calls; checks cancels-before-close, no write after close, completion.",
+         "Poll-granularity schedules.", "DESIGN.md §5 C10"),
+ "C11": ("client", "long-run stateful property-based testing against a wire-derived reference count plus read-only counters (hook H2)",
+         "Up to 300 ops per case reusing table slots by every removal route; bound checked at each write, counters at each quiescence, reclamation with the clock stopped.",
+         "H2 counters are read-only accessors compiled only with feature verif.", "DESIGN.md §5 C11"),
+ "C14": ("client", "property-based testing against a Sink/Stream contract monitor over the logged transport operations, both readiness models",
+         "Every start_send/poll_ready/poll_flush/poll_close call is logged by the scripted transport and checked against the Sink contract for generated capacities, budgets and faults.",
+         "The scripted transport is maximally permissive outside the stated rules.", "DESIGN.md §5 C14"),
  "C01": ("client", "stateful property-based testing (proptest op sequences over the real client dispatch under an owned scheduler) against a wire reference model",
          "Generated call/reply/abandon/expire histories and schedules; a model of the wire decides which payload each call may return. Exploration, not proof: bounded scenario length, poll-granularity schedules.",
          "Trusts the scripted transport and executor of the harness; virtual time via clock_gettime interposition.", "DESIGN.md §5 C01"),
